@@ -254,7 +254,16 @@ class Gen:
             return ["field", self.ident(n), self.ident(a)]
         if k == "sub":
             return ["sub", self.expr(t, depth - 1)]
+        # now and then the SAME leaf again (same type, same tag): two occurrences of one extension
+        # expression are two evaluations
+        prev = getattr(self, "ext_seen", None)
+        if prev is None:
+            prev = self.ext_seen = {}
+        key = repr(t)
+        if key in prev and self.rng.random() < 0.15:
+            return ["ext", self.ty(t), prev[key]]
         self.tag += 1
+        prev[key] = self.tag
         return ["ext", self.ty(t), self.tag]
 
     def call(self, f, depth):
